@@ -89,7 +89,7 @@ def detect(sdir, tier, props):
     finally:
         drop(d)
         # regenerate anything the translator wrote from the mutated tree back from /repo
-        sh([PY, os.path.join(V, "harness/translate.py"), "NodeTable.lean", "ListenerSig.lean", "AllocSites.lean"], cwd=V)
+        sh([PY, os.path.join(V, "harness/translate.py"), "NodeTable.lean", "ListenerSig.lean", "AllocSites.lean", "MethodSrc.lean", "EvolventSrc.lean", "StronginC3Src.lean"], cwd=V)
     return res
 
 
